@@ -119,7 +119,7 @@ func (g *vfGen) genC16() {
 			}
 		}
 		for i := 0; i < g.pick(60, 1500); i++ {
-			g.emit(vfOp("jcap", cap, []string{"json", "geo"}[g.rng.Intn(2)], []byte(g.jdocument())))
+			g.emit(vfOp("jcap", cap, []string{"json", "geo"}[g.intn(2)], []byte(g.jdocument())))
 		}
 	}
 	// the real cap: verdicts at cap-1 .. cap+2 (through Parse and through Detect)
